@@ -180,6 +180,41 @@ class QueueModel(RDFModel):
         self.add(Contract("C20", REL, "SPARQLUpdateStore.__len__", [], ret=INT, self_ty=UST, pre=wf, post=read_post,
                           modifies=MODS, note="len(): pending writes are committed first unless dirty_reads "
                                               "(query/triples/contexts have the same two-line prologue)"))
+        # ---- add_graph / remove_graph go through update(), i.e. through the queue
+        self.add(Contract("C20", REL, "SPARQLUpdateStore.update",
+                          [Param("query", STR), Param("initNs", None, default=None), Param("initBindings", None, default=None),
+                           Param("queryGraph", None, default=None), Param("DEBUG", BOOL, default=False)],
+                          self_ty=UST, pre=wf, post=write_post, modifies=MODS, trusted=True,
+                          note="update(text): the (rewritten) request text is queued after the earlier writes, or the queue "
+                               "incl. it is sent at once under autocommit - ASSUMED (prefix / named-graph rewriting with "
+                               "regular expressions is outside the subset); bounded stand-in only"))
+
+        def ga(c):
+            return z3.And(wf(c), c.old.field("SPARQLUpdateStore", "graph_aware", c.self.z))
+        DEFAULT = self.globals["DATASET_DEFAULT_GRAPH_ID"].z
+
+        def ag_post(c):
+            st0, st1 = c.old, c.new
+            ident = st0.field("GraphArg", "identifier", c.args["graph"].z)
+            unchanged = z3.And(sent(st1, c) == sent(st0, c), edits(st1, c) == edits(st0, c))
+            return [("default-graph-needs-no-create-others-go-through-the-queue",
+                     z3.If(ident == DEFAULT, unchanged, z3.And(*[f for _, f in write_post(c)])))]
+        self.add(Contract("C20", REL, "SPARQLUpdateStore.add_graph", [Param("graph", GRAPHO)], self_ty=UST, pre=ga,
+                          post=ag_post, modifies=MODS,
+                          raises={"Exception": lambda c: z3.BoolVal(True)}, on_raise_state=unchanged_on_raise,
+                          note="add_graph: nothing for the default graph, otherwise exactly one write through the queue"))
+        self.add(Contract("C20", REL, "SPARQLUpdateStore.remove_graph", [Param("graph", GRAPHO)], self_ty=UST, pre=ga,
+                          post=write_post, modifies=MODS,
+                          raises={"Exception": lambda c: z3.BoolVal(True)}, on_raise_state=unchanged_on_raise,
+                          note="remove_graph: exactly one write (DROP) queued after the earlier ones (autocommit off) or the "
+                               "queue incl. it sent at once (autocommit on) - never sent ahead of queued writes"))
+        for nm in ("triples", "contexts", "query"):
+            self.add(Contract("C20", REL, "SPARQLStore." + nm, [Param("a", None, default=None)], cls="SPARQLStore",
+                              ret=INT, modifies=[], trusted=True, note="external read"))
+            self.add(Contract("C20", REL, "SPARQLUpdateStore." + nm, [], ret=INT, self_ty=UST, pre=wf, post=read_post,
+                              modifies=MODS, note=nm + "(): pending writes are committed first (one request, call order) "
+                                                       "unless dirty_reads or autocommit; otherwise queue and endpoint "
+                                                       "are left as they are"))
 
 
 def build():
